@@ -113,6 +113,14 @@ def inherently_ambiguous(nd: tg.Node, v: t.Any, x: t.Any, trace_v: t.List[t.Any]
     value, a serialiser picked by a loose isinstance test).  Below the root the old, wider exclusion stays.
     """
     import pane
+    if isinstance(nd, tg.Vol):
+        # value-or-list at the root: x made by the list side is written as a list.  Only a list which the value side takes as well
+        # (an element type that itself accepts lists) is ambiguous; a list of one written as its bare element is the serialiser's doing
+        from pane.types import ValueOrList
+        if isinstance(x, ValueOrList) and not x._is_val:
+            (k, d) = outcome(lambda: pane.into_data(x, nd.pytype()))
+            return k == 'ok' and tg.is_seq(d)
+        return True
     if not isinstance(nd, tg.Union):
         return True
     (r, i) = nd.ref_index(v)
